@@ -265,6 +265,7 @@ def e2_op_strategies(nparts, ngroups, profile):
             st.integers(0, 7)).map(list),
         'rm': st.tuples(st.just('rm'), idx).map(list),
         'finish': st.tuples(st.just('finish'), idx).map(list),
+        'rmlast': st.just(['rmlast']),
         'prio': st.tuples(st.just('prio'), idx,
                           st.sampled_from([0, 1, 5, 50, 100])).map(list),
         'srv': st.tuples(st.just('srv'), st.integers(0, 8),
@@ -322,7 +323,7 @@ def e2_op_strategies(nparts, ngroups, profile):
 
 
 E2_WEIGHTS = {
-    'app': 10, 'rm': 2, 'finish': 1, 'prio': 1, 'srv': 1, 'rmsrv': 1,
+    'app': 10, 'rm': 2, 'rmlast': 1, 'finish': 1, 'prio': 1, 'srv': 1, 'rmsrv': 1,
     'down': 2, 'up': 2, 'reboot': 1, 'resize': 1, 'repart': 1, 'reparent': 1,
     'state': 1, 'allocs': 1, 'idg': 1, 'rmidg': 1, 'bl': 1, 'blackout': 1,
     'cellev': 1, 'running': 1, 'adv': 2, 'adv_ret': 1, 'tickreboots': 1,
